@@ -28,7 +28,67 @@ fn is_cfg_test(attrs: &[syn::Attribute]) -> bool {
     attrs.iter().any(|a| a.path().is_ident("cfg") && quote::ToTokens::to_token_stream(a).to_string().contains("test"))
 }
 
+/// name of an impl's self type: last path segment; `&T` / `&mut T` as T; a slice `[u8]` as "[T]"
+fn self_type_name(t: &syn::Type) -> Option<String> {
+    match t {
+        syn::Type::Path(p) => Some(last_ident(&p.path)),
+        syn::Type::Reference(r) => self_type_name(&r.elem),
+        syn::Type::Paren(p) => self_type_name(&p.elem),
+        syn::Type::Slice(_) => Some("[T]".to_string()),
+        _ => None,
+    }
+}
+
+/// closures of a function body in source order
+fn closures_of(body: &syn::Block) -> Vec<syn::ExprClosure> {
+    use syn::visit::Visit;
+    struct V {
+        found: Vec<((usize, usize), syn::ExprClosure)>,
+    }
+    impl<'ast> Visit<'ast> for V {
+        fn visit_expr_closure(&mut self, c: &'ast syn::ExprClosure) {
+            let p = c.or1_token.span.start();
+            self.found.push(((p.line, p.column), c.clone()));
+            syn::visit::visit_expr_closure(self, c);
+        }
+    }
+    let mut v = V { found: vec![] };
+    v.visit_block(body);
+    v.found.sort_by_key(|f| f.0);
+    v.found.into_iter().map(|f| f.1).collect()
+}
+
 fn find_in_items(items: &[Item], loc: &Loc, out: &mut Vec<Found>) -> Result<(), String> {
+    if let Loc::Closure { outer, idx } = loc {
+        let mut fs = vec![];
+        find_in_items(items, outer, &mut fs)?;
+        for f in fs {
+            let cl = match closures_of(&f.body).into_iter().nth(*idx) {
+                Some(c) => c,
+                None => return Err(format!("the function at {:?} has no closure number {}", outer, idx)),
+            };
+            let mut args: Vec<syn::FnArg> = vec![];
+            for p in &cl.inputs {
+                let a: syn::FnArg = match p {
+                    syn::Pat::Type(pt) => {
+                        let (pat, ty) = (&pt.pat, &pt.ty);
+                        syn::parse_quote!(#pat: #ty)
+                    }
+                    syn::Pat::Wild(_) => syn::parse_quote!(_unused: _),
+                    other => syn::parse_quote!(#other: _),
+                };
+                args.push(a);
+            }
+            let output = &cl.output;
+            let sig: syn::Signature = syn::parse_quote!(fn closure(#(#args),*) #output);
+            let body: syn::Block = match &*cl.body {
+                syn::Expr::Block(b) if b.label.is_none() => b.block.clone(),
+                e => syn::parse_quote!({ #e }),
+            };
+            out.push(Found { sig, body, line: cl.or1_token.span.start().line });
+        }
+        return Ok(());
+    }
     for it in items {
         match (it, loc) {
             (Item::Mod(m), _) => {
@@ -55,9 +115,9 @@ fn find_in_items(items: &[Item], loc: &Loc, out: &mut Vec<Found>) -> Result<(), 
                 }
             }
             (Item::Impl(i), Loc::Impl { ty, tr, f }) => {
-                let self_name = match &*i.self_ty {
-                    syn::Type::Path(p) => last_ident(&p.path),
-                    _ => continue,
+                let self_name = match self_type_name(&i.self_ty) {
+                    Some(n) => n,
+                    None => continue,
                 };
                 if self_name != *ty {
                     continue;
@@ -73,6 +133,13 @@ fn find_in_items(items: &[Item], loc: &Loc, out: &mut Vec<Found>) -> Result<(), 
                         }
                     }
                 }
+            }
+            (Item::Macro(m), Loc::MacroExpr { mac, subst }) if m.ident.as_ref().map(|i| i == mac).unwrap_or(false) => {
+                let body = macro_body(m.mac.tokens.clone(), subst).ok_or_else(|| format!("cannot find the body of macro_rules! {}", mac))?;
+                let e: syn::Expr = syn::parse2(body).map_err(|e| format!("body of macro_rules! {} does not parse as an expression after substitution: {}", mac, e))?;
+                let sig: syn::Signature = syn::parse_quote!(fn macro_body());
+                let line = m.ident.as_ref().map(|i| i.span().start().line).unwrap_or(0);
+                out.push(Found { sig, body: syn::parse_quote!({ #e }), line });
             }
             (Item::Macro(m), Loc::InMacro { mac, subst, inner }) if m.ident.as_ref().map(|i| i == mac).unwrap_or(false) => {
                 let body = macro_body(m.mac.tokens.clone(), subst).ok_or_else(|| format!("cannot find the body of macro_rules! {}", mac))?;
